@@ -103,7 +103,7 @@ def add_hazard(block, rng, kind):
         raise core.HarnessError('unknown hazard ' + kind)
 
 
-CHAOS_KINDS = ['eval_zdiv', 'eval_domain', 'eval_nan', 'eval_inf',
+CHAOS_KINDS = ['eval_zdiv', 'eval_domain', 'eval_nan', 'eval_inf', 'eval_oscillate',
                'eval_overflow_abort', 'eval_arith_abort', 'eval_sim_abort']
 
 
@@ -138,6 +138,8 @@ def place_faults(block, knobs, drive, rng, kinds, n_faults=1):
             count = rng.choice([1, 1, 2, 5, cap + 5, 10 ** 9])
         elif kind in ('eval_nan', 'eval_inf'):
             count = rng.choice([1, 1, 3, 10 ** 9])
+        elif kind == 'eval_oscillate':
+            count = rng.choice([3, 8, cap + 5, 10 ** 9])
         else:
             count = 1
         faults.append({'kind': kind, 'at': at, 'count': count})
@@ -195,12 +197,17 @@ def gen_case(seed, profile_weights, tier, tol_lo=None):
         knobs['prelude'] = pre
     if profile == 'chaos':
         where = S['faults'].random()
+        kinds = list(CHAOS_KINDS)
         if where < 0.6:
-            wrap_function(block, S['faults'], 'chaos', prefer_cycle=True)
+            wrapped = wrap_function(block, S['faults'], 'chaos', prefer_cycle=True)
+            if wrapped is None or wrapped not in eqn.names_in([r_ for v_, r_ in block['eqs'] if v_ == wrapped][0]):
+                kinds.remove('eval_oscillate')
         else:
-            # in a decorative-looking equation (nothing depends on it)
+            # in a decorative-looking equation (nothing depends on it): evaluated once per period, so a wrong
+            # *value* (as opposed to an error or a non-finite value) cannot be noticed by any solver
             block['eqs'].append(['dz', 'chaos(2.0*%s + 1.0)' % block['eqs'][0][0]])
-        faults, _ = place_faults(block, knobs, case['drive'], S['faults'], CHAOS_KINDS,
+            kinds.remove('eval_oscillate')
+        faults, _ = place_faults(block, knobs, case['drive'], S['faults'], kinds,
                                  n_faults=S['faults'].choice([1, 1, 2]))
         case['faults'] = faults
     return case
